@@ -159,44 +159,59 @@ def watchdog_map(fn_mod, fn_name, items, per_item_timeout, procs=4, extra=None):
     """Run fn([item], extra) in one forked child per item, killing children that exceed the timeout.
 
     Returns a list of (item, result_or_None, hung:bool).  Used where the property itself says the call must
-    return (a hang is a verdict, not a machinery failure).
+    return (a hang is a verdict, not a machinery failure).  The parent stays SINGLE-THREADED: forking from a
+    thread pool let children inherit module-import locks held by sibling threads and hang for reasons that have
+    nothing to do with the code under test.
     """
-    import concurrent.futures as cf
+    import time as _time
+    from multiprocessing.connection import wait as _wait
     ctx = mp.get_context("fork")
 
-    def one(item):
-        parent, child = ctx.Pipe(duplex=False)
+    def target(conn, item):
+        try:
+            mod = __import__(fn_mod, fromlist=[fn_name])
+            res = getattr(mod, fn_name)([item], extra)
+            conn.send(("ok", res))
+        except BaseException:
+            conn.send(("err", traceback.format_exc()))
+        finally:
+            conn.close()
+            os._exit(0)
 
-        def target(conn):
-            try:
-                mod = __import__(fn_mod, fromlist=[fn_name])
-                res = getattr(mod, fn_name)([item], extra)
-                conn.send(("ok", res))
-            except BaseException:
-                conn.send(("err", traceback.format_exc()))
-            finally:
-                conn.close()
-                os._exit(0)
-        p = ctx.Process(target=target, args=(child,))
-        p.start()
-        child.close()
-        if parent.poll(per_item_timeout):
-            try:
-                status, val = parent.recv()
-            except EOFError:
-                status, val = "err", "child died without a result"
-            p.join(5)
-            if p.is_alive():
+    items = list(items)
+    results = [None] * len(items)
+    pending = list(range(len(items)))
+    running = {}          # parent connection -> (index, process, deadline)
+    while pending or running:
+        while pending and len(running) < procs:
+            i = pending.pop(0)
+            parent, child = ctx.Pipe(duplex=False)
+            p = ctx.Process(target=target, args=(child, items[i]))
+            p.start()
+            child.close()
+            running[parent] = (i, p, _time.time() + per_item_timeout)
+        ready = _wait(list(running), timeout=0.2)
+        now = _time.time()
+        for conn in list(running):
+            i, p, deadline = running[conn]
+            if conn in ready:
+                try:
+                    status, val = conn.recv()
+                except EOFError:
+                    status, val = "err", "child died without a result"
+                p.join(5)
+                if p.is_alive():
+                    p.kill()
+                del running[conn]
+                if status == "err":
+                    for _, q, _ in running.values():
+                        q.kill()
+                    from .tlc import MachineryError
+                    raise MachineryError("worker failed:\n" + str(val))
+                results[i] = (items[i], val[0] if val else None, False)
+            elif now > deadline:
                 p.kill()
-            return (item, status, val, False)
-        p.kill()
-        p.join(5)
-        return (item, "hung", None, True)
-    out = []
-    with cf.ThreadPoolExecutor(max_workers=procs) as ex:
-        for item, status, val, hung in ex.map(one, list(items)):
-            if status == "err":
-                from .tlc import MachineryError
-                raise MachineryError("worker failed:\n" + str(val))
-            out.append((item, val[0] if val else None, hung))
-    return out
+                p.join(5)
+                del running[conn]
+                results[i] = (items[i], None, True)
+    return results
